@@ -20,7 +20,9 @@ PartOK(part, a, b) ==
    the implementation computed for this update, when they could be observed ("NA" otherwise): the threshold must then BE that number *)
 FitOK(th) == IF th.fit = "NA" \/ th.theta = "NA" THEN TRUE
              ELSE IF NIsNaN(th.fit) THEN NIsNaN(th.theta) ELSE Close(th.theta, th.fit)
+(* th.nre: how many re-assignment distances the update was observed to compute (-1: not observable): sampling_times of them *)
 ThetaOK(th) == /\ FitOK(th)
+               /\ (th.nre = -1 \/ th.nre = th.st)
                /\ \/ th.theta = "NA"
                   \/ NCmp(th.lo, th.theta) \in {-1, 0, 2} /\ NCmp(th.theta, th.hi) \in {-1, 0, 2}
                   \/ NIsNaN(th.theta) /\ Close(th.lo, th.hi)
